@@ -11,11 +11,11 @@ CHECKS = {
         note="Reals stand for binary64 (rounding budget outside the claim); numba/LLVM/PTX code generation trusted (py_func semantics encoded, counterexamples replayed on the compiled kernels and numba's CUDA simulator); np.linalg.qr replaced by exact Gram-Schmidt; shapes beyond the bounds not covered.",
         ref="DESIGN.md section 4 C01"),
     "C02": dict(
-        text="Bounded symbolic verification of one scheduler iteration from an ARBITRARY loop state (so plans of any length and any Jdes are covered): the current source of ltf_plan/lpsd_plan/vectorized_ltf_plan/new_ltf_plan is interpreted with if-then-else state merging over symbolic N (unbounded), fs, olap, bmin, Lmin, Jdes, Kdes; the solver shows no division by zero / sqrt of a negative, max(1,Lmin)<=L<=N, K>=1, K=navg=len(D), K=1=>L=N, every start in [0,N-L], first start 0, strictly increasing, last start N-L (generic k-th start from the proved loop invariant; generic-element arange for the vectorised code; literal unrolling for N<=12/24 with an unwinding assertion); SpectrumAnalyzer.plan() is executed in fork mode on symbolic plans satisfying exactly those post-conditions and never raises. The tests run three schedulers on one configuration.",
+        text="Bounded symbolic verification of one scheduler iteration from an ARBITRARY loop state (so plans of any length and any Jdes are covered): the current source of ltf_plan/lpsd_plan/vectorized_ltf_plan/new_ltf_plan is interpreted with if-then-else state merging over symbolic N (unbounded), fs, olap, bmin, Lmin, Jdes, Kdes; the solver shows no division by zero / sqrt of a negative, max(1,Lmin)<=L<=N, K>=1, K=navg=len(D), K=1=>L=N, every start in [0,N-L], first start 0, strictly increasing, last start N-L (generic k-th start from the proved loop invariant; generic-element arange for the vectorised code; literal unrolling for N<=12/24 with an unwinding assertion); SpectrumAnalyzer.plan() is executed in fork mode on symbolic plans satisfying exactly those post-conditions and never raises. Every obligation also exists after a prior plan in the same process (module-level state must not leak); the last iterations of ltf/lpsd are executed path by path from a state within 3 fs/N of the end of the band (bins emitted in bulk, early exits); the thorough tier explores whole plans at N=8 path by path. The tests run three schedulers on one configuration.",
         note="Exact reals (IEEE ties outside); (N/2)**(1/Jdes) is an uninterpreted application with stated facts and the vectorised lookup grid is a generic adjacent pair; every sat model is replayed by running the real scheduler and SpectrumAnalyzer.plan() on the model's configuration family and checking every bin; new_ltf_plan has open known findings (F5a-d) and its heavier obligations run in the thorough tier only.",
         ref="DESIGN.md section 4 C02"),
     "C03": dict(
-        text="Same encodings as C02: for one iteration from an arbitrary state the solver shows r*L=fs, f'=f+r, r>0, f<fs/2, the stored b equals f*L/fs, f0=bmin*fs/N, b>=bmin-f/(2fs) (times 1/rho for the vectorised lookup grid), and that lpsd_plan forwards exactly its arguments with bmin=1.0, Lmin=1. N unbounded.",
+        text="Same encodings as C02: for one iteration from an arbitrary state the solver shows r*L=fs, f'=f+r, r>0, f<fs/2, the stored b equals f*L/fs, f0=bmin*fs/N, b>=bmin-f/(2fs) (times 1/rho for the vectorised lookup grid), and that lpsd_plan forwards exactly its arguments with bmin=1.0, Lmin=1. N unbounded. Also after a prior plan in the same process, and for every bin emitted by one execution of the loop body near the end of the band (fork mode).",
         note="Exact reals; power and lookup-grid abstractions as in C02; replay on real plans; new_ltf_plan violates r*L=fs (known finding F5b).",
         ref="DESIGN.md section 4 C03"),
     "C04": dict(
@@ -79,7 +79,7 @@ CHECKS = {
         note="Configurations off the grid and the two corner octaves are outside (a first-order corner is 3*alpha/2 dB off by construction); reading of 'about 1 dB' fixed in DESIGN.md before looking at what passes; cell width is part of the tolerance.",
         ref="DESIGN.md section 4 C18"),
     "C19": dict(
-        text="Symbolic verification: polynomial_detrend's residual is orthogonal to all monomials of degree<=p, a polynomial is mapped to zero, adding one changes nothing, detrending is idempotent, order 0 is mean removal, short inputs fall back (n<=6, orders<=3); integral_rms^2 equals the trapezoidal sum over the in-band grid points for symbolic grids (<=5 points), ASD values and band edges (every membership pattern by forking), power is additive at grid points, nested bands are monotone, degenerate bands give 0; get_rms and df_detrend wiring.",
+        text="Symbolic verification: polynomial_detrend's residual is orthogonal to all monomials of degree<=p, a polynomial is mapped to zero, adding one changes nothing, detrending is idempotent, order 0 is mean removal, short inputs fall back (n<=6, orders<=3); integral_rms^2 equals the trapezoidal sum over the in-band grid points for symbolic grids (<=5 points), ASD values and band edges (every membership pattern by forking), power is additive at grid points, nested bands are monotone, degenerate bands give 0; get_rms and df_detrend wiring; integer index arithmetic of polynomial_detrend on a record of symbolic length n<=10^6 stays within int64 (np.arange(n) modelled as an int64 array with symbolic elements, orders 2..5).",
         note="np.polyfit is replaced by its least-squares contract (normal equations); cumulative_trapezoid is scipy's own code on object arrays; the Parseval clause is statistical and outside.",
         ref="DESIGN.md section 4 C19"),
     "C20": dict(
